@@ -1498,6 +1498,9 @@ class Interp:
                 return None
             if name == "with_traceback":
                 return Method(obj, "with_traceback")
+            if name in (getattr(obj, "attrs", None) or {}):
+                # instance attributes given by whoever modelled the raise (e.g. `errno` of an OSError-like exception)
+                return obj.attrs[name]
             raise Unsupported(f"exception attribute {name}")
         if isinstance(obj, SInt) and name == "to_bytes":
             return Method(obj, name)  # int.to_bytes(1, order): see call_method
